@@ -185,6 +185,20 @@ def judge (prop : String) (j : Json) : R Verdict := do
           if coverable then spec := spec ++ ["complete"]
         if cands.length > window then tags := tags ++ ["over-window"]
       | _ => pure ()
+    -- several blocks: the block that fails is judged like a single one when nothing another block can see is among
+    -- what it can see (then no earlier block can have taken anything from it)
+    if oe.startsWith "notResolved:" && qs.length > 1 then
+      let failing := (oe.drop "notResolved:".length).toString
+      match qs.find? (·.1 == failing) with
+      | some (_, q) =>
+        let cands := candidates st q []
+        let others := (qs.filter (·.1 != failing)).flatMap fun (_, o) => (candidates st o []).map (·.ref)
+        if cands.all (fun u => !(others.contains u.ref)) then
+          tags := tags ++ ["independent-block"]
+          if q.refs.length < 2 && nonNegTarget q && cands.length ≤ window then
+            let coverable := if q.many then (!cands.isEmpty && coversSum q cands) else cands.any (coversOne q)
+            if coverable then spec := spec ++ ["complete:independent-block"]
+      | none => pure ()
   let nt := !st.isEmpty && qs.any fun (_, q) => q.minAmount.isSome || !q.refs.isEmpty || q.address.isSome
   return { i, corr, spec := spec.eraseDups, nt, key, tags }
 
